@@ -755,8 +755,10 @@ class DLC(utils.EventEmitter):
             else:
                 raise InvalidArgumentError('write only accept bytes or strings')
 
-        self.tx_buffer += data
-        self.drained.clear()
+        if data:
+            # (with nothing to send, nothing would ever set `drained` again)
+            self.tx_buffer += data
+            self.drained.clear()
         self.process_tx()
 
     async def drain(self) -> None:
